@@ -30,7 +30,7 @@ from .. import faultfs, sq
 
 PROP = "C26"
 INVS = ["TypeOK", "AlwaysIntact", "ContractAtEnd", "RenameOnlyDurable"]
-LEVELS = ("safe", "persist", "paths")
+LEVELS = ("safe", "persist", "paths")     # _safe_create_replace_file / lint + persist_changes / lint_paths(apply_fixes)
 _LINTER = None
 
 
@@ -42,17 +42,17 @@ SCOPES = {
     # (constants of the emission run, what)
     "quick": [
         (dict(NFiles=1, SkipChoices={fs()}, SuffixChoices={False, True}, MaxRaise=2, AllowDie=True),
-         "one file, up to two raised faults, death anywhere, with and without suffix"),
+         "one file, up to two raised faults, death anywhere, with and without suffix", LEVELS),
         (dict(NFiles=2, SkipChoices={fs(), fs(1)}, SuffixChoices={False, True}, MaxRaise=1, AllowDie=True),
-         "two files (second may follow a skipped first), one raised fault, death anywhere"),
+         "two files (second may follow a skipped first), one raised fault, death anywhere", ("safe", "paths")),
     ],
     "thorough": [
         (dict(NFiles=1, SkipChoices={fs()}, SuffixChoices={False, True}, MaxRaise=3, AllowDie=True),
-         "one file, up to three raised faults, death anywhere"),
+         "one file, up to three raised faults, death anywhere", LEVELS),
         (dict(NFiles=2, SkipChoices={fs(), fs(1), fs(2)}, SuffixChoices={False, True}, MaxRaise=2, AllowDie=True),
-         "two files, any one skipped, two raised faults, death anywhere"),
+         "two files, any one skipped, two raised faults, death anywhere", LEVELS),
         (dict(NFiles=3, SkipChoices={fs(), fs(2)}, SuffixChoices={False, True}, MaxRaise=1, AllowDie=True),
-         "three files, one raised fault, death anywhere"),
+         "three files, one raised fault, death anywhere", LEVELS),
     ],
 }
 MODEL = dict(NFiles=2, SkipChoices={fs(), fs(1), fs(2)}, SuffixChoices={False, True}, MaxRaise=2, AllowDie=True)
@@ -116,9 +116,20 @@ def run_cases(rep, cases):
         if clean(o["obs"]) not in [clean(p) for p in c["pred"]] and len(rep.drift) < 40:
             rep.drift.append(f"{c['id']} ({c['level']}, plan {plan_str(planned)}): observed {o['obs']} is not among the "
                              f"model's final states for this plan")
-    val = validate_traces("AtomicWriteObs", traces)
+    return traces, by_id
+
+
+def judge_obs(rep, traces, by_id, finals):
+    """One TLC run evaluates the contract on every observation (replayed plans and real CLI runs)."""
+    val = validate_traces("AtomicWriteObs", traces + finals)
     rep.validation(val, "AtomicWriteObs")
+    fin = {f["id"]: f for f in finals}
     for r in val.rejected:
+        if r["id"] in fin:
+            t = fin[r["id"]]
+            rep.violation(r["clause"], {"clause": r["clause"], "level": "cli-final"},
+                          f"directory after a real `sqlfluff fix`: {t['events'][0]['obs']}", {"kind": "final", "trace": t})
+            continue
         c, o = by_id[r["id"]]
         files = "; ".join(f"{faultfs.FILES[i + 1]['name']}.sql: in={f['inp']} out={f['out']} temp files={f['ntmp']}"
                           for i, f in enumerate(o["obs"]["files"]))
@@ -127,7 +138,6 @@ def run_cases(rep, cases):
                       f"[{plan_str(c['plan'])}] -> outcome {o['obs']['outcome']} ({o['exc']}); directory afterwards: {files}; "
                       f"names {o['names']}",
                       {"kind": "plan", "case": {k: v for k, v in c.items() if k != "pred"}, "observed": o})
-    return len(cases)
 
 
 # ------------------------------------------------------------------------------------------------ C -> S
@@ -273,18 +283,28 @@ def run(tier: str, seed: int) -> int:
 
         progress_bar_configuration.disable_progress_bar = True
         _LINTER = sq.linter(sq.config("ansi", "raw", rules="LT01"))
-        nplans = 0
-        for k, (consts, what) in enumerate(SCOPES[tier]):
+        nplans, obs_traces, by_id = 0, [], {}
+        only_levels = [x for x in os.environ.get("VF_C26_LEVELS", "").split(",") if x]    # development aid
+        for k, (consts, what, levels) in enumerate(SCOPES[tier]):
+            if only_levels:
+                levels = tuple(x for x in levels if x in only_levels) or tuple(only_levels)
             e = run_tlc("AtomicWrite", cfg_text(constants=dict(consts, MoveFallback=True)), workers=4, timeout=1500)
             expect_model_ok(e, "AtomicWrite enumeration")
             rep.model(e, "plans: " + what)
             if not e.records:
                 raise MachineryError("AtomicWrite emitted no plans")
-            cases = cases_from(e.records, consts["NFiles"], LEVELS, f"s{k}")
-            nplans += run_cases(rep, cases)
+            cases = cases_from(e.records, consts["NFiles"], levels, f"s{k}")
+            cap = int(os.environ.get("VF_C26_CAP", "0") or 0)        # development aid: every cap-th case only
+            if cap:
+                cases = cases[::cap]
+                rep.assumptions.append(f"VF_C26_CAP={cap}: only every {cap}-th plan replayed (development run)")
+            t, b = run_cases(rep, cases)
+            obs_traces += t
+            by_id.update(b)
+            nplans += len(cases)
             rep.sample({"scope": what, "case": {kk: v for kk, v in cases[len(cases) // 2].items() if kk != "pred"},
                         "model_final_states": cases[len(cases) // 2]["pred"][:2]})
-        rep.exhaustive = True
+        rep.exhaustive = not (os.environ.get("VF_C26_CAP") or only_levels)
         rep.extra["plans_replayed"] = nplans
         # 3. C->S: system calls of real `sqlfluff fix` runs
         traces, finals, info = [], [], []
@@ -302,12 +322,7 @@ def run(tier: str, seed: int) -> int:
             rep.violation(r["clause"], {"clause": r["clause"], "level": "cli-syscalls", "suffix": t["suffix"]},
                           f"system calls of `sqlfluff fix` for {t['id']} rejected at step {r['step']}: {t['events']}",
                           {"kind": "strace", "trace": t, "verdict": r})
-        val2 = validate_traces("AtomicWriteObs", finals)
-        rep.validation(val2, "AtomicWriteObs")
-        for r in val2.rejected:
-            t = next(f for f in finals if f["id"] == r["id"])
-            rep.violation(r["clause"], {"clause": r["clause"], "level": "cli-final"},
-                          f"directory after a real `sqlfluff fix`: {t['events'][0]['obs']}", {"kind": "final", "trace": t})
+        judge_obs(rep, obs_traces, by_id, finals)
         rep.sample({"strace_trace": traces[0]})
     finally:
         shutil.rmtree(base, ignore_errors=True)
@@ -320,7 +335,7 @@ def run(tier: str, seed: int) -> int:
                         "directory projection: body classes by byte comparison with the fixture's original / expected fixed "
                         "bytes (BOM kept), modes from stat",
                         "fixtures: the LT01 fix of `a  FROM` is `a FROM`", "strace output parser (vf/props/c26.py)"]
-    rep.assumptions = ["process death is os._exit: the page cache survives, so a missing fsync is not observable by replay "
+    rep.assumptions += ["process death is os._exit: the page cache survives, so a missing fsync is not observable by replay "
                        "(it is checked on the system-call order instead)",
                        "a failing os.remove in the cleanup handler excuses the leftover temp file"]
     return rep.finish()
